@@ -158,3 +158,95 @@ def configs(tier):
         for strategy in ("filter", "fixedpoint", "fixedinterval"):
             out.append(ivp.Cfg(layout, "none", strategy, "ts0", q=1, d=2 if layout != "dense" else 1))
     return out
+
+
+# --------------------------------------------------------------------------------------
+# offgrid_marginals (after-the-fact dense output)
+# --------------------------------------------------------------------------------------
+
+
+def offgrid_contract(cfg: ivp.Cfg, N=2, k=0):
+    """Query time strictly inside the k-th step of a stored solution with N steps."""
+    L = cfg.L
+
+    def stacked_solution(rng):
+        import dataclasses
+
+        from probdiffeq._probdiffeq.estimators_and_losses import MarkovSequence, SmoothingSolution
+
+        solver, base = ivp.make_state(cfg, rng)
+        states = [ivp.tie_u(ivp.randomise(base, rng, positive=ivp.positive_leaves(base))) for _ in range(N + 1)]
+        stack = lambda xs: jax.tree_util.tree_map(lambda *a: jnp.stack(a), *xs)
+        u = stack([s.u for s in states])
+        if cfg.strategy == "filter":
+            sf = u
+        else:
+            conds = stack([s.solution_full.conditional for s in states[1:]])
+            filtering = stack([ivp.randomise(s.u, rng) for s in states])
+            sf = SmoothingSolution(posterior=MarkovSequence(states[-1].u, conds, reverse=True), filtering=filtering)
+        prior = stack([base.prior] * N)
+        sol = dataclasses.replace(base, u=u, solution_full=sf, output_scale=jnp.asarray(rng.uniform(0.5, 2.0, size=(N + 1,) + np.shape(base.output_scale))), prior=prior,
+                                  num_steps=jnp.arange(N + 1.0), auxiliary=None, fun_evals=None, t=jnp.zeros((N + 1,)))
+        return solver, sol
+
+    def times(t0, hs, theta, theta2):
+        incs = [hs[j] if j != k else theta + theta2 for j in range(N)]
+        grid = [t0]
+        for h in incs:
+            grid.append(grid[-1] + h)
+        return jnp.stack(grid), grid[k] + theta
+
+    def wrap(target):
+        def f(self, solution, t0, hs, theta, theta2):
+            import dataclasses
+
+            grid, t = times(t0, hs, theta, theta2)
+            return target(self, t, solution=dataclasses.replace(solution, t=grid))
+
+        return f
+
+    def ensures(res, self, solution, t0, hs, theta, theta2):
+        import probdiffeq.backend.linalg as LA
+
+        grid, t = times(t0, hs, theta, theta2)
+        idx = lambda tree, j: jax.tree_util.tree_map(lambda a: a[j], tree)
+        prior_k = idx(solution.prior, k)
+        scale = solution.output_scale[k + 1]
+        cond1 = prior_k.transition(dt=t - grid[k], output_scale=scale)
+        left = idx(solution.solution_full if cfg.strategy == "filter" else solution.solution_full.filtering, k)
+        Phi, m_t, P_t = ivp.predict_spec(cfg, left.mean_flat, cov(L, left), cond1)
+        if cfg.strategy == "filter":
+            return [eq("offgrid_mean_is_prediction_from_preceding_state", res.mean_flat, m_t), eq("offgrid_cov_is_prediction_from_preceding_state", cov(L, res), P_t)]
+        # fixed-interval smoother: additionally conditioned on everything later, through the smoothed marginal at t_{k+1}
+        cond2 = prior_k.transition(dt=grid[k + 1] - t, output_scale=scale)
+        Phi2, b2, Q2 = law(L, cond2)
+        P2 = L.mm(L.mm(Phi2, P_t), L.T(Phi2)) + Q2
+        rv_t, _ = cond1.revert(left, solve_triu=LA.solve_triu)
+        _, back = cond2.revert(rv_t, solve_triu=LA.solve_triu)
+        Gb, xib, Xib = law(L, back)
+        right = idx(solution.u, k + 1)
+        return [
+            eq("rts_gain_equation", L.mm(Gb, P2), L.mm(P_t, L.T(Phi2))),
+            eq("offgrid_mean_is_rts_interpolation", res.mean_flat, m_t + L.mv(Gb, right.mean_flat - (L.mv(Phi2, m_t) + b2))),
+            eq("offgrid_cov_is_rts_interpolation", cov(L, res), P_t + L.mm(L.mm(Gb, cov(L, right) - P2), L.T(Gb))),
+        ]
+
+    def instances(tier):
+        def make(rng):
+            solver, sol = stacked_solution(rng)
+            sc = lambda: jnp.asarray(rng.uniform(0.1, 0.3))
+            return (solver, sol, jnp.asarray(rng.uniform(0.0, 0.2)), jnp.asarray(rng.uniform(0.1, 0.3, size=(N,))), sc(), sc()), {}
+
+        def positive(args, kwargs):
+            sol = args[1]
+            out = [sol.output_scale, args[3], args[4], args[5], sol.prior.output_scale]
+            if cfg.strategy != "filter":
+                out += [sol.solution_full.posterior.conditional.to_latent, sol.solution_full.posterior.conditional.to_observed]
+            return out
+
+        return [Instance(f"{cfg.name},N={N},k={k}", make, positive=positive, names=lambda a, k_: {id(a[2]): "t0", id(a[3]): "h", id(a[4]): "theta", id(a[5]): "theta2"})]
+
+    callees = [G.BY_LAYOUT[cfg.layout]["marginalise"], G.BY_LAYOUT[cfg.layout]["revert"]]
+    return Contract(name=f"{MOD}:ProbabilisticSolver.offgrid_marginals[{cfg.name},N={N},k={k}]", module=MOD, qualname="ProbabilisticSolver.offgrid_marginals", wrap=wrap,
+                    ensures=ensures, instances=instances, callees=callees, inherits=("revert#", "revert_conditional#"),
+                    doc="after-the-fact marginal strictly inside step k: prediction from the preceding filtering state (filter) / RTS interpolation towards the smoothed marginal at the next grid point (fixed-interval smoother)")
